@@ -30,3 +30,50 @@ package module
 //@   trusted
 //@   pure
 //@   ensures err == nil ==> tx != nil
+
+//@ property C29
+// BTP digests and proof lists are immutable values: their accessors are pure functions of the value.
+//@ smt all (declare-fun btd_digests (Iface) Slice)
+//@ smt all (declare-fun ntd_id (Iface) Int)
+//@ smt all (declare-ghost pc_verified Int)
+//@ func (bd BTPDigest) NetworkTypeDigests() (r)
+//@   iface
+//@   trusted
+//@   pure
+//@   ensures r == btd_digests(bd) && off(r) == 0
+//@ func (ntd NetworkTypeDigest) NetworkTypeID() (id)
+//@   iface
+//@   trusted
+//@   pure
+//@   ensures id == ntd_id(ntd)
+//@ func (ntd NetworkTypeDigest) NetworkTypeSectionHash() (h)
+//@   iface
+//@   trusted
+//@   pure
+//@ func (l NTSDProofList) NTSDProofCount() (n)
+//@   iface
+//@   trusted
+//@   pure
+//@ func (l NTSDProofList) NTSDProofAt(i) (bs)
+//@   iface
+//@   trusted
+//@   pure
+//@ func (pc BTPProofContext) NewDecision(srcNetworkUID, ntid, height, round, ntsHash) (d)
+//@   iface
+//@   trusted
+//@   pure
+//@   ensures d != nil
+//@ func (d BytesHasher) Hash() (h)
+//@   iface
+//@   trusted
+//@   pure
+//@ func (pc BTPProofContext) NewProofFromBytes(proofBytes) (p, err)
+//@   iface
+//@   trusted
+//@   pure
+// pc_verified counts the proofs a proof context accepted
+//@ func (pc BTPProofContext) Verify(decisionHash, p) (err)
+//@   iface
+//@   trusted
+//@   pure
+//@   opt ghost:pc_verified ghost(pc_verified) + ((err == nil) ? 1 : 0)
